@@ -280,7 +280,7 @@ func main() {
 	os.Exit(rep.Finish("exploration", map[string]interface{}{
 		"evaluations":         evals,
 		"distinct_nontrivial": len(distinct),
-		"rule": "all 2^8 subsets of caller-context layers (string key, struct key, NewOutgoingContext metadata, incoming metadata, peer, enclosing ServerTransportStream, AppendToOutgoingContext pairs, context-typed value) x 2 stacking orders x 3 base contexts (background, inside an in-process unary handler, inside an in-process stream handler) " +
+		"rule": "all 2^9 subsets of caller-context layers (string key, struct key, NewOutgoingContext metadata, incoming metadata, peer, enclosing ServerTransportStream, AppendToOutgoingContext pairs, context-typed value, peer with AuthInfo) x 2 stacking orders x 3 base contexts (background, inside an in-process unary handler, inside an in-process stream handler) " +
 			"x deadline/none x unary/stream x with/without channel-level server interceptors, each as a real call on a fresh inprocgrpc.Channel with the oracle inside the handler " +
 			"(and the interceptor). A case is non-trivial when the caller context carried at least one value the library has to block or replace (a layer, or the enclosing handler's own " +
 			"context) and the handler completed all three phases (static checks; then, while the handler is parked, the caller mutates in place / Set / delete on the very map it gave to NewOutgoingContext and the handler re-reads its incoming metadata; then cancellation observed); distinct by all parameters.",
@@ -290,6 +290,6 @@ func main() {
 	}, []string{
 		"the deadline is one hour ahead: equality of deadlines is checked, never elapsed time; 30 s timers are hang guards only",
 		"metadata aliasing can only be probed through the public metadata API (which copies) and through the map the caller gave to NewOutgoingContext",
-		"'an in-process peer' is taken to be the peer address that the same call reports to the caller through grpc.Peer",
+		"'an in-process peer' is taken to be the peer (address and auth info) that the same call reports to the caller through grpc.Peer",
 	}))
 }
